@@ -315,6 +315,29 @@ v('c20r15-header-part-conditional', 'C20', 'C20-R15', 'src/terminal.go', "\t\tt.
 v('c09r15-unkeyed-prompt-memo', 'C09', 'C09-R15', 'src/terminal.go', "func findFirstMatch(pattern string, str string) int {\n\trx, err := regexp.Compile(pattern)\n\tif err != nil {\n\t\treturn -1\n\t}\n", "var firstMatchRegexp *regexp.Regexp\n\nfunc findFirstMatch(pattern string, str string) int {\n\tif firstMatchRegexp == nil {\n\t\tcompiled, err := regexp.Compile(pattern)\n\t\tif err != nil {\n\t\t\treturn -1\n\t\t}\n\t\tfirstMatchRegexp = compiled\n\t}\n\trx := firstMatchRegexp\n")
 b('keyed-regexp-memo', ['C09'], 'src/terminal.go', "func findLastMatch(pattern string, str string) int {\n\trx, err := regexp.Compile(pattern)\n\tif err != nil {\n\t\treturn -1\n\t}\n", "var lastMatchPattern string\nvar lastMatchRegexp *regexp.Regexp\n\nfunc findLastMatch(pattern string, str string) int {\n\tif lastMatchRegexp == nil || lastMatchPattern != pattern {\n\t\tcompiled, err := regexp.Compile(pattern)\n\t\tif err != nil {\n\t\t\treturn -1\n\t\t}\n\t\tlastMatchRegexp, lastMatchPattern = compiled, pattern\n\t}\n\trx := lastMatchRegexp\n")
 
+# ---- round 9 rules (incl. those written for D58..D74): further broken variants and behaviour-preserving edits
+b('v2-early-exit-max-swapped', ['C03'], 'src/algo/algo.go', "bonus >= util.Max16(bonusBoundaryWhite, bonusBoundaryDelimiter)", "bonus >= util.Max16(bonusBoundaryDelimiter, bonusBoundaryWhite)")
+v('c03r9-white-only', 'C03', 'C03-R9', 'src/algo/algo.go', "bonus >= util.Max16(bonusBoundaryWhite, bonusBoundaryDelimiter)", "bonus >= bonusBoundaryWhite")
+b('trimpath-slash-or-separator', ['C19'], 'src/reader.go', "bytes[0] == '.' && os.IsPathSeparator(bytes[1])", "bytes[0] == '.' && (bytes[1] == '/' || os.IsPathSeparator(bytes[1]))")
+b('cycle-unless-transform', ['C10'], 'src/terminal.go', "if a.t == actChangeNth && len(tokens) > 1 {", "if a.t != actTransformNth && len(tokens) > 1 {")
+v('c10r10-cycle-when-long', 'C10', 'C10-R10', 'src/terminal.go', "if a.t == actChangeNth && len(tokens) > 1 {", "if len(tokens) > 1 && len(expr) > 2 {")
+b('post-complete-test-split', ['C16'], 'src/server.go', "\t\t\tif len(body) >= contentLength {\n\t\t\t\tbreak Loop\n\t\t\t}", "\t\t\tif len(body) == contentLength || len(body) > contentLength {\n\t\t\t\tbreak Loop\n\t\t\t}")
+b('accent-test-conjuncts-swapped', ['C01'], 'src/pattern.go', "\t\t\tlowerText == string(algo.NormalizeRunes([]rune(lowerText))) &&\n\t\t\ttext == string(algo.NormalizeRunes([]rune(text)))", "\t\t\ttext == string(algo.NormalizeRunes([]rune(text))) &&\n\t\t\tlowerText == string(algo.NormalizeRunes([]rune(lowerText)))")
+b('prompt-fits-test-mirrored', ['C15'], 'src/terminal.go', "\tif t.displayWidth(t.input) <= maxWidth {", "\tif maxWidth >= t.displayWidth(t.input) {")
+v('c15r17-hide-forgets-memo', 'C15', 'C15-R17', 'src/terminal.go', "\t\t\t\tt.headerVisible = false\n\t\t\t\tt.forceRerenderList()\n", "\t\t\t\tt.headerVisible = false\n")
+b('become-failure-exit-127', ['C14'], 'src/util/util_unix.go', "\tfmt.Fprintf(os.Stderr, \"fzf (become): %s\\n\", err.Error())\n\tos.Exit(126)\n}", "\tfmt.Fprintf(os.Stderr, \"fzf (become): %s\\n\", err.Error())\n\tos.Exit(127)\n}")
+b('cancel-copies-with-append', ['C09'], 'src/terminal.go', "\t\t\t\t\tt.yanked = copySlice(t.input)\n\t\t\t\t\tt.input = []rune{}", "\t\t\t\t\tt.yanked = append([]rune{}, t.input...)\n\t\t\t\t\tt.input = []rune{}")
+b('env-entry-short-test', ['C12', 'C16'], 'src/proxy.go', "\t\t\tif len(pair) != 2 {", "\t\t\tif len(pair) < 2 {")
+b('reqseq-plus-equals', ['C13', 'C01', 'C08'], 'src/matcher.go', "\tm.reqSeq++\n\tm.reqBox.Set(event,", "\tm.reqSeq += 1\n\tm.reqBox.Set(event,")
+b('merge-nth-both-tests', ['C10', 'C08'], 'src/terminal.go', "\tif r.nth == nil {\n\t\tr.nth = pending.nth\n\t}", "\tif r.nth == nil && pending.nth != nil {\n\t\tr.nth = pending.nth\n\t}")
+b('wait-result-in-local', ['C06'], 'src/reader.go', "\tr.feed(execOut)\n\treturn exec.Wait() == nil", "\tr.feed(execOut)\n\terr = exec.Wait()\n\treturn err == nil")
+v('c06r13-wait-before-feed', 'C06', 'C06-R13', 'src/reader.go', "\tr.feed(execOut)\n\treturn exec.Wait() == nil", "\tdone := make(chan bool, 1)\n\tgo func() { done <- exec.Wait() == nil }()\n\tr.feed(execOut)\n\treturn <-done")
+v('c13r11-snapshot-under-terminal-lock', 'C13', 'C13-R11', 'src/terminal.go', "func (t *Terminal) UpdateHeader(header []string) {\n\tt.mutex.Lock()\n\tt.header = header\n\tt.mutex.Unlock()\n\tt.reqBox.Set(reqHeader, nil)\n}", "func (t *Terminal) UpdateHeader(header []string) {\n\tt.mutex.Lock()\n\tt.header = header\n\tt.eventBox.Set(EvtSearchProgress, float32(0))\n\tt.mutex.Unlock()\n\tt.reqBox.Set(reqHeader, nil)\n}")
+v('c18r15-previous-bypasses-edits', 'C18', 'C18-R15', 'src/history.go', "\tif h.cursor > 0 {\n\t\th.cursor--\n\t}\n\treturn h.current()", "\tif h.cursor > 0 {\n\t\th.cursor--\n\t\treturn h.lines[h.cursor]\n\t}\n\treturn h.current()")
+v('c09r18-false-when-present', 'C09', 'C09-R18', 'src/terminal.go', "\tif _, found := t.selected[item.Index()]; found {\n\t\treturn true\n\t}", "\tif _, found := t.selected[item.Index()]; found {\n\t\treturn false\n\t}")
+v('c17r25-plus-colon-entry', 'C17', 'C17-R25', 'src/options.go', "string([]rune{escapedPlus, ':'})", "string([]rune{escapedComma, ':'})")
+v('c03r11-compare-with-letter', 'C03', 'C03-R11', 'src/algo/algo.go', "(index_ == 0 || charClassOf(text.Get(index_-1)) <= charDelimiter)", "(index_ == 0 || charClassOf(text.Get(index_-1)) < charLower)")
+
 def build(entries, outdir, kind):
     """One persistent scratch worktree per worker (same path for every variant, so the Go build cache hits);
     removed at the end."""
